@@ -561,6 +561,72 @@ pub fn pair_features(env: &Env, a: &D, b: &D) -> Vec<&'static str> {
     out
 }
 
+/// Signatures for a mismatch on a type that was re-materialised from the semantic engine (a program that spells it
+/// with Exclude or an indexed access): `<base>:engine:<family>` for every listed family of engine findings whose
+/// trigger is present in the type, or just `<base>` when none is (so that the engine's findings do not cover for
+/// anything else that goes wrong in such programs).
+pub fn engine_family_sigs(base: &str, env: &Env, d: &D, v: Option<&JsVal>) -> Vec<String> {
+    let mut fams: Vec<String> = pair_features(env, d, d).into_iter().map(|s| s.to_string()).collect();
+    let mut seen = vec![false; env.defs.len()];
+    fn has_any(env: &Env, d: &D, seen: &mut Vec<bool>) -> bool {
+        d.any_node(&mut |n| match n {
+            D::Any => true,
+            D::Ref(i) if !seen[*i] => {
+                seen[*i] = true;
+                has_any(env, env.get(*i), seen)
+            }
+            _ => false,
+        })
+    }
+    // `any` re-materialised from the engine only admits the engine's universe (no functions, symbols, cyclic objects):
+    // that family needs both the `any` and such a value.  The engine has no notion of a property that is present with
+    // the value undefined either (absent and undefined are one thing to it).
+    // custom formats are opaque to the engine: a format that meets a literal or another format in an intersection
+    // (StringFormat<"lower"> & "a") is taken to be empty
+    let mut seen2 = vec![false; env.defs.len()];
+    fn reaches_node(env: &Env, d: &D, seen: &mut Vec<bool>, pred: &dyn Fn(&D) -> bool) -> bool {
+        d.any_node(&mut |n| {
+            if pred(n) {
+                return true;
+            }
+            match n {
+                D::Ref(i) if !seen[*i] => {
+                    seen[*i] = true;
+                    reaches_node(env, env.get(*i), seen, pred)
+                }
+                _ => false,
+            }
+        })
+    }
+    if reaches_node(env, d, &mut seen2, &|n| matches!(n, D::StrFmt(_) | D::NumFmt(_))) {
+        let mut seen3 = vec![false; env.defs.len()];
+        if reaches_node(env, d, &mut seen3, &|n| matches!(n, D::Inter(_))) {
+            fams.push("custom_format_inside_intersection".to_string());
+        }
+    }
+    if let Some(v) = v {
+        if !in_sem_universe(v) && has_any(env, d, &mut seen) {
+            fams.push("any_closed_to_engine_universe".to_string());
+        }
+        fn undef_prop(v: &JsVal) -> bool {
+            match v {
+                JsVal::Obj(kv, _) => kv.iter().any(|(_, x)| matches!(x, JsVal::Undef) || undef_prop(x)),
+                JsVal::Arr(xs) | JsVal::Set(xs) => xs.iter().any(undef_prop),
+                JsVal::Map(kv) => kv.iter().any(|(a, b)| undef_prop(a) || undef_prop(b)),
+                _ => false,
+            }
+        }
+        if undef_prop(v) {
+            fams.push("property_present_with_value_undefined".to_string());
+        }
+    }
+    if fams.is_empty() {
+        vec![base.to_string()]
+    } else {
+        fams.into_iter().map(|f| format!("{}:engine:{}", base, f)).collect()
+    }
+}
+
 #[derive(Debug, Clone, Serialize, Deserialize)]
 pub struct PairCase {
     pub env: Env,
@@ -734,6 +800,54 @@ impl Check for C05 {
                 let (a, b) = (wrap(D::Ref(k), w), wrap(D::Ref(k + 1), w));
                 return serde_json::to_value(PairCase { env, a, b, iso: true }).unwrap();
             }
+        }
+        // one case in twelve: a list with a rest against a union of tuples that covers it length by length (or just
+        // fails to): the decision has to combine several negated tuples of different lengths
+        if s.chance(1, 12) {
+            let leaf = |s: &mut Src| match s.below(4) {
+                0 => D::Num,
+                1 => D::Str,
+                2 => D::Union(vec![D::StrLit("a".into()), D::StrLit("b".into())]),
+                _ => D::Bool,
+            };
+            let t = leaf(s);
+            let wider = |s: &mut Src, t: &D| match s.below(3) {
+                0 => D::Union(vec![t.clone(), D::Null]),
+                1 => D::Union(vec![t.clone(), if *t == D::Num { D::Str } else { D::Num }]),
+                _ => t.clone(),
+            };
+            let k = s.below(2);
+            let n = k + 1 + s.below(3);
+            let a = D::Tuple(vec![t.clone(); k], Some(Box::new(t.clone())));
+            let mut members = vec![];
+            for len in k..n {
+                members.push(D::Tuple((0..len).map(|_| wider(s, &t)).collect(), None));
+            }
+            members.push(D::Tuple((0..n).map(|_| wider(s, &t)).collect(), Some(Box::new(wider(s, &t)))));
+            match s.below(5) {
+                // a hole: one length is missing, or one position is too narrow
+                0 => {
+                    let i = s.below(members.len());
+                    members.remove(i);
+                }
+                1 => {
+                    let i = s.below(members.len());
+                    if let D::Tuple(ps, _) = &mut members[i] {
+                        if !ps.is_empty() {
+                            let j = s.below(ps.len());
+                            ps[j] = D::Null;
+                        }
+                    }
+                }
+                _ => {}
+            }
+            let r = s.below(members.len().max(1));
+            members.rotate_left(r);
+            if s.chance(1, 2) {
+                members.reverse();
+            }
+            let b = if members.len() == 1 { members.pop().unwrap() } else { D::Union(members) };
+            return serde_json::to_value(PairCase { env, a, b, iso: false }).unwrap();
         }
         let a = roots[0].clone();
         let b = match s.below(10) {
